@@ -6,7 +6,7 @@ Import ListNotations.
 Open Scope N_scope.
 
 (* names: 1 = A, 2 = B (CHAINED); 3 = run r1; 4 = N *)
-Definition g_chain : gstate := mkG [(1, CChained); (2, CChained)] [] [] [] [] [] [] [] [(0, 0)] 1 [].
+Definition g_chain : gstate := mkG [(1, CChained); (2, CChained)] [] [] [] [] [] [] [] [(0, 0)] 1 [] [].
 Definition cyclic (g : gstate) : bool := memN 2 (children g 1) && memN 1 (children g 2).
 Definition p_chain := [client_of [SetChain 1 [2]]; client_of [SetChain 2 [1]]].
 
